@@ -44,14 +44,15 @@ instance : Inhabited KV := ⟨.nil⟩
 inductive Rej
   | unknown_key | type_mismatch | missing_method | reserved_name
   | exit            -- any other `sys.exit()` (missing / unknown parameter_level, version, no programs, deployment type)
-  | key_error | type_error | attr_error | io_error | unbound
+  | key_error | type_error | attr_error | io_error | unbound | index_error | value_error
   deriving DecidableEq, Repr, Inhabited
 
 def Rej.name : Rej → String
   | .unknown_key => "unknown_key" | .type_mismatch => "type_mismatch"
   | .missing_method => "missing_method" | .reserved_name => "reserved_name" | .exit => "exit"
   | .key_error => "key_error" | .type_error => "type_error" | .attr_error => "attr_error"
-  | .io_error => "io_error" | .unbound => "unbound"
+  | .io_error => "io_error" | .unbound => "unbound" | .index_error => "index_error"
+  | .value_error => "value_error"
 
 /-! ### lists and dictionaries -/
 
